@@ -334,12 +334,10 @@ impl Iterator for Lexer {
 
                 while let Some(current) = self.current() {
                     dir_str.push(current);
-                    if let Some(next) = self.peek(1) {
-                        if !Self::is_symbol_char(next) {
-                            break;
-                        }
+                    match self.peek(1) {
+                        Some(next) if Self::is_symbol_char(next) => self.consume_char(),
+                        _ => break,
                     }
-                    self.consume_char();
                 }
 
                 let end = self.get_pos();
@@ -515,12 +513,10 @@ impl Iterator for Lexer {
 
                 while let Some(current) = self.current() {
                     symbol_str.push(current);
-                    if let Some(next) = self.peek(1) {
-                        if !Self::is_symbol_item(next) {
-                            break;
-                        }
+                    match self.peek(1) {
+                        Some(next) if Self::is_symbol_item(next) => self.consume_char(),
+                        _ => break,
                     }
-                    self.consume_char();
                 }
 
                 // If the next char is ':', this is a label
